@@ -215,6 +215,25 @@ def run(chk):
                             and (dotted(a._parent.func) or "").startswith("math.")
                         )
                     ]
+                    # R3b: SQLAlchemy renders a unary operator directly in front of an inline literal (`-` + `-1` = `--1`,
+                    # a comment): a literal that may be a negative number must be self-delimiting - inside CAST(..)/a function,
+                    # wrapped in Grouping, or returned only when the value is known not to be negative
+                    rv = r.value
+                    if isinstance(rv, ast.Name):
+                        rv = _single_assignment(rv.id, node) or rv
+                    if isinstance(rv, ast.Call) and (dotted(rv.func) or "").endswith(".literal") and uses:
+                        from ..flow import dominating_tests, preceding_guards
+
+                        tests = list(dominating_tests(r, node)) + list(preceding_guards(r, node))
+                        nonneg = False
+                        for t, pol in tests:
+                            for c2 in ast.walk(t):
+                                if isinstance(c2, ast.Compare) and len(c2.ops) == 1 and norm(c2.left) == f"{pname}.val" and isinstance(c2.comparators[0], ast.Constant) and c2.comparators[0].value == 0:
+                                    if (isinstance(c2.ops[0], ast.Lt) and not pol) or (isinstance(c2.ops[0], ast.GtE) and pol):
+                                        nonneg = True
+                        chk.ob("R3", mod, r, f"{q}: bare inline literal is never a negative number", nonneg,
+                               f"`{norm(r)[:80]}` renders `{pname}.val` as a bare inline literal also when it is a negative number: "
+                               "`-pdt.lit(-1)` becomes `--1`, i.e. the rest of the line is a SQL comment (syntax error / truncated expression)")  # fmt: skip
                     for u in uses:
                         p = getattr(u, "_parent", None)
                         good = False
